@@ -156,6 +156,62 @@ func init() {
 		},
 	})
 
+	// reported load with many clients: capacity 16, 9-15 slots held by served clients that leave at
+	// chosen instants while the proxy keeps polling a broker that has no client for it (the same
+	// pollOffer call polls again every 5 s): every poll reports a multiple of 8 not above the slots in use
+	harnesses = append(harnesses, &vs.Harness{
+		Name:     "c16-load",
+		Horizon:  5 * time.Minute,
+		MaxSteps: 100000,
+		Body: func(x *vs.X) {
+			w := &proxyWorld{copyDone: map[int]chan struct{}{}, newPC: livePC, capacity: 16}
+			x.User = w
+			held := []int{7, 8, 9, 15}[vs.Choose("held", 4)]
+			leaveAt := []time.Duration{0, 3 * time.Second, 5 * time.Second, 7 * time.Second, 12 * time.Second}[vs.Choose("leave", 5)]
+			leaving := []int{1, 2, 8}[vs.Choose("leaving", 3)]
+			if leaving > held {
+				leaving = held
+			}
+			x.Outcome(fmt.Sprintf("capacity=16 held=%d, %d of them leave at %v", held, leaving, leaveAt))
+			w.sf = &SnowflakeProxy{Capacity: 16, RelayURL: "wss://snowflake.torproject.net/", RelayDomainNamePattern: "snowflake.torproject.net$", ProxyType: "standalone",
+				EventDispatcher: event.NewSnowflakeEventDispatcher(), shutdown: make(chan struct{})}
+			w.install()
+			for i := 0; i < held; i++ {
+				tokens.get() // a client being served
+			}
+			vs.GoRole("clients-leave", vs.RoleDaemon, func() {
+				vs.Sleep(leaveAt)
+				for i := 0; i < leaving; i++ {
+					w.noteInUse(0)
+					tokens.ret()
+					w.noteInUse(1) // the number in use just before this release (or more, if a slot was taken meanwhile)
+				}
+			})
+			vs.GoRole("pollLoop", vs.RoleDaemon, w.pollLoop)
+			vs.Sleep(30 * time.Second)
+			w.stop()
+		},
+		Check: func(x *vs.X) {
+			w := x.User.(*proxyWorld)
+			for _, t := range x.Threads() {
+				if t.Panic != "" {
+					x.Fail("no-panic", "panic:"+firstLineP(t.Panic), "thread %s panicked: %s\n%s", t.Name, t.Panic, t.PanicAt)
+				}
+			}
+			for _, p := range w.problems {
+				x.Fail("reported-load", "bad-reported-load", "%s", p)
+			}
+			var oc []string
+			for _, p := range w.polls {
+				oc = append(oc, fmt.Sprintf("%d/%d", p.clients, p.inUse))
+			}
+			if len(w.polls) < 4 {
+				x.Fail("polls-again", "stopped-polling", "only %d polls in 30 s", len(w.polls))
+			}
+			x.Outcome("reported/in-use: " + strings.Join(oc, " "))
+		},
+	})
+
 	// C06 (iii): relay URL grammar through the real runSession + datachannelHandler
 	schemes := []string{"wss://", "ws://", "WSS://", "https://", "", "wss:"}
 	userinfos := []string{"", "snowflake.torproject.net@", "a:b@"}
